@@ -186,7 +186,34 @@ fn lookup_table(recv: &P) -> String {
     format!("OK Other {}", parts.join(","))
 }
 
+/// `x op= y` through the real `bin_op_assign <sym>= x` instruction: x is a registered variable, y is on the operand stack
+fn run_assign(sym: &str, args: &[P]) -> String {
+    let function = Function::new(Weak::new(), "verif".to_string(), Box::new([]));
+    let stack = Rc::new(RefCell::new(Stack::new()));
+    stack.borrow_mut().extend(Cow::Borrowed("verif"));
+    let mut ctx = Ctx::new(&function, stack, Cow::Owned(vec![]), None);
+    if ctx.register_variable(Cow::Borrowed("x"), args[0].clone()).is_err() {
+        return "ERR".to_string();
+    }
+    ctx.push(args[1].clone());
+    let iargs = vec![format!("{sym}="), "x".to_string()];
+    let out = match imp::bin_op_assign(&mut ctx, &iargs) {
+        Err(_) => "ERR".to_string(),
+        Ok(()) => {
+            let top = ctx.get_last_op_item().map(show).unwrap_or_else(|| "OK Other empty".to_string());
+            let var = ctx.load_variable("x").map(|p| show(&p.primitive())).unwrap_or_else(|| "OK Other novar".to_string());
+            if ctx.stack_size() == 1 && top == var { top } else { format!("OK Other stack{}:{}!={}", ctx.stack_size(), top.replace(' ', "_"), var.replace(' ', "_")) }
+        }
+    };
+    std::mem::forget(ctx);
+    out
+}
+
 pub fn eval_ext(op: &str, args: &[P]) -> String {
+    if let Some(sym) = op.strip_prefix("A:") {
+        let s = match sym { "add" => "+", "sub" => "-", "mul" => "*", "div" => "/", "rem" => "%", _ => panic!("assign op {sym}") };
+        return run_assign(s, args);
+    }
     if op == "T:lookup" {
         return lookup_table(&args[0]);
     }
